@@ -137,7 +137,10 @@ type witness struct {
 }
 
 type env struct {
-	c *core.Ctx
+	c   *core.Ctx
+	lex *lexSpec // exported by ZsonDecorLex.tla
+	// probed: Lexer.fill no longer runs into io.ErrShortBuffer on a long primitive candidate (F-C02-18 repaired)
+	fillFixed bool
 }
 
 // canon renders a value canonically for comparison across contexts: the type as its type value, the
@@ -274,7 +277,7 @@ func write(vals []zed.Value, c *cfg, pretty int, useWriter bool) ([]string, erro
 				if err := w.Write(v); err != nil {
 					return nil, err
 				}
-				texts[i] = strings.TrimSuffix(buf.String()[prev:], "\n")
+				texts[i] = strings.TrimSuffix(string(buf.Bytes()[prev:]), "\n")
 				prev = buf.Len()
 			}
 			return texts, w.Close()
@@ -524,6 +527,7 @@ func run(c *core.Ctx) error {
 	c.Add("traces_validated_against_impl", int64(len(jcases)))
 	c.Logf("JSON cases replayed: %d", len(jcases))
 	e.lexical()
+	e.lexbuf(e.lex)
 	return nil
 }
 
@@ -551,6 +555,36 @@ func (e *env) runTLC() ([]rtCase, []jsonCase, error) {
 	}
 	results := make([]result, nshards)
 	done := make(chan int)
+	// the lexer-buffer spec runs next to the shards
+	lexCfg := "ZsonDecorLex.quick.cfg"
+	if !c.Quick() {
+		lexCfg = "ZsonDecorLex.thorough.cfg"
+	}
+	lexDone := make(chan *lexSpec)
+	go func() {
+		lexCfgBytes, err := os.ReadFile(filepath.Join(core.VerifDir, "specs", "cfg", lexCfg))
+		if err != nil {
+			c.Inconclusive("%v", err)
+			lexDone <- nil
+			return
+		}
+		lexCfgText := string(lexCfgBytes)
+		if e.fillFixed {
+			lexCfgText = strings.Replace(lexCfgText, "\n  FixedFill = FALSE", "\n  FixedFill = TRUE", 1)
+		}
+		res := c.MustHold(core.TLCRun{Module: "ZsonDecorLex", Cfg: lexCfgText, Keep: []string{"lex.json"}, Workers: 1, Timeout: timeout, HeapMB: 3072})
+		if res == nil {
+			lexDone <- nil
+			return
+		}
+		var ls lexSpec
+		if err := core.ReadJSONFile(res, "lex.json", &ls); err != nil {
+			c.Inconclusive("lex.json: %v", err)
+			lexDone <- nil
+			return
+		}
+		lexDone <- &ls
+	}()
 	for s := 0; s < nshards; s++ {
 		go func(s int) {
 			defer func() { done <- s }()
@@ -570,6 +604,10 @@ func (e *env) runTLC() ([]rtCase, []jsonCase, error) {
 	}
 	for s := 0; s < nshards; s++ {
 		<-done
+	}
+	e.lex = <-lexDone
+	if e.lex == nil {
+		return nil, nil, nil
 	}
 	var cases []rtCase
 	var jcases []jsonCase
@@ -620,11 +658,23 @@ func (e *env) probeFixed() string {
 	if v, ok := read1(`{"a":1,"a":2}`); ok && safeFormat(v) == "{a:2}" {
 		fixed = append(fixed, `"dupkey"`)
 	}
+	// a bytes literal longer than the lexer's buffer reads back
+	long := zed.NewValue(zed.TypeBytes, zcode.Bytes(strings.Repeat("\xab", zson.ReadSize)))
+	if got, err := safe(func() (zed.Value, error) { return zson.ParseValue(zed.NewContext(), zson.FormatValue(long)) }); err == nil && canon(got) == canon(long) {
+		e.fillFixed = true
+		fixed = append(fixed, `"shortbuf"`)
+	}
 	e.c.Set("spec_defect_paths_repaired_in_tree", fixed)
 	if len(fixed) > 0 {
-		e.c.Logf("probe: the tree under test no longer has the defect path(s) %s; ZsonDecor.tla is checked with Fixed = {%s}", strings.Join(fixed, ","), strings.Join(fixed, ","))
+		e.c.Logf("probe: the tree under test no longer has the defect path(s) %s; the specs are checked with the matching constants (ZsonDecor.tla Fixed, ZsonDecorLex.tla FixedFill for \"shortbuf\")", strings.Join(fixed, ","))
 	}
-	return "{" + strings.Join(fixed, ", ") + "}"
+	var decor []string
+	for _, f := range fixed {
+		if f != `"shortbuf"` {
+			decor = append(decor, f)
+		}
+	}
+	return "{" + strings.Join(decor, ", ") + "}"
 }
 
 func (e *env) replay() error {
@@ -645,6 +695,10 @@ func (e *env) replay() error {
 		return nil
 	case "json":
 		e.checkJSONText(w.Text, w.Class, len(w.SpecTaint) == 0, w.SpecTaint)
+	case "lexbuf":
+		if !e.lexbufClass(w.Class) {
+			return fmt.Errorf("unknown lexbuf class %q", w.Class)
+		}
 	case "lexical":
 		raw, err := base64.StdEncoding.DecodeString(w.ZNG)
 		if err != nil {
